@@ -921,6 +921,21 @@ func (g *G) FuncDef() string {
 		g.Funcs = append(g.Funcs, f)
 		base, step := r.Intn(3), 1+r.Intn(2)
 		op := core.Pick(r, []string{"+", "*", "^"})
+		if g.F.GlobalReads && r.Bool(.3) {
+			// the base case (deepest frame) reads / bumps a global: an outer access many frames below the first call
+			if ws := g.visible(TInt, false); len(ws) > 0 {
+				v := core.Pick(r, ws)
+				if !v.Local && !v.Const && !v.RO {
+					f.ReadsGlobals = true
+					touch := v.Name
+					if g.F.GlobalWrites && r.Bool(.5) {
+						f.WritesGlobals = true
+						touch = v.Name + "++"
+					}
+					return fmt.Sprintf("func %s(x) { if x <= %d { return %s }; x %s %s(x - %d) }", name, base, touch, op, name, step)
+				}
+			}
+		}
 		pr := ""
 		if g.F.PrintInFuncs && r.Bool(.3) {
 			pr = "print(x, \" \"); "
@@ -961,6 +976,18 @@ func (g *G) closureDef(f *Func) string {
 	g.Funcs = append(g.Funcs, f)
 	capName := "n"
 	captured := g.IntLit()
+	if g.F.GlobalReads && r.Bool(.35) {
+		// the inner function reads a global that is two environments above its call frame
+		if gv, ok := g.varOf(TInt); ok && !shadowed(g.scope, gv) {
+			f.ReadsGlobals = true
+			op := core.Pick(r, []string{"+", "*", "-"})
+			inner := fmt.Sprintf("func(x) { x %s %s }", op, gv)
+			if r.Bool(.4) {
+				inner = fmt.Sprintf("func(x) { (y => y %s %s)(x) }", op, gv) // three levels
+			}
+			return fmt.Sprintf("%s = func() { %s }; %s = %s()", mk, inner, f.Name, mk)
+		}
+	}
 	if g.F.SameTextClosures && r.Bool(.6) {
 		capName = "N"
 	} else {
